@@ -236,6 +236,7 @@ def replay_all(univ, cases, gens, opts, procs=14, chunk=200):
     from lib import common
     cases = sorted(cases, key=lambda c: c["d"])
     chunks = [cases[i:i + chunk] for i in range(0, len(cases), chunk)]
+    from bind import declgen, observe, trace_packet      # import errors must surface here, not kill pool workers silently
     ctx = multiprocessing.get_context("fork")
     mism = []
     n = 0
